@@ -138,6 +138,11 @@ fn grid(thorough: bool) -> Vec<RHub> {
                             let msg = RMsg::Transfer { token_id: id, source_address: pat(sl, 3), destination_address: pat(*dl, 9), amount, data: pat(data, 5) };
                             out.push(RHub::SendToHub { chain: chain.clone(), msg: msg.clone() });
                             out.push(RHub::ReceiveFromHub { chain: chain.clone(), msg });
+                            // non-empty fields consisting of zero bytes only are present, not absent
+                            if data > 0 && amount == 1 {
+                                let z = RMsg::Transfer { token_id: id, source_address: vec![0; sl], destination_address: vec![0; *dl], amount, data: vec![0; data] };
+                                out.push(RHub::ReceiveFromHub { chain: chain.clone(), msg: z });
+                            }
                         }
                     }
                 }
@@ -149,6 +154,10 @@ fn grid(thorough: bool) -> Vec<RHub> {
                             let msg = RMsg::Deploy { token_id: id, name: name.clone(), symbol: symbol.clone(), decimals, minter: pat(ml, 11) };
                             out.push(RHub::SendToHub { chain: chain.clone(), msg: msg.clone() });
                             out.push(RHub::ReceiveFromHub { chain: chain.clone(), msg });
+                            if ml > 0 && decimals == 18 {
+                                let z = RMsg::Deploy { token_id: id, name: name.clone(), symbol: symbol.clone(), decimals, minter: vec![0; ml] };
+                                out.push(RHub::SendToHub { chain: chain.clone(), msg: z });
+                            }
                         }
                     }
                 }
